@@ -287,6 +287,19 @@ def check_c13(seed, tier):
                     verify(_open(path, use_cache=rng.random() < 0.5, create_cache=True), {**case, "open": "create_cache=True"})
                     verify(_open(path, use_cache=True), {**case, "open": "use_cache=True after create_cache=True"})
                     distinct.add((tuple(images), mode, "cached"))
+                    # PARTIAL cache states: an index (written by the command line tool, next to the image) for SOME images only —
+                    # the last one, a middle one, every second one: the tree is assembled as without any cache
+                    names_ = [im.name for im in prod.images]
+                    subsets = [names_[-1:], names_[len(names_) // 2:len(names_) // 2 + 1], names_[1::2]] if len(names_) > 1 else []
+                    for sub in subsets:
+                        oracle_cache.wipe_user_cache()
+                        for nm in sub:
+                            oracle_cache.run_cli(os.path.join(path, nm), rng.choice([1, 2, 1024]))
+                        evals += 1
+                        verify(_open(path, use_cache=True), {**case, "open": f"use_cache=True with index files for {len(sub)} of {len(names_)} images only", "cached_images": sub})
+                        for nm in sub:
+                            if os.path.exists(os.path.join(path, nm + ".index")):
+                                os.remove(os.path.join(path, nm + ".index"))
                 finally:
                     oracle_cache.wipe_user_cache()
         except Exception as e:  # noqa: BLE001
